@@ -615,13 +615,20 @@ func (e *SpecEnv) Eval(x *SX) (Term, error) {
 		if err != nil {
 			return a, err
 		}
-		if a.Sort.Kind == KOpaque && x.Op == "as" {
-			tso, _, err := e.reg.prog.ResolveTypeX(e.ss(), e.pk, x.Type)
+		if a.Sort.Kind == KOpaque {
+			tso, gt, err := e.reg.prog.ResolveTypeX(e.ss(), e.pk, x.Type)
 			if err != nil {
 				return a, err
 			}
-			_, un := e.ss().BoxFn(tso, a.Sort)
-			return Term{sx(un, a.S), tso}, nil
+			_, un := e.ss().BoxFn(tso, a.Sort, gt)
+			if x.Op == "as" {
+				return Term{sx(un, a.S), tso}, nil
+			}
+			tname := mangle(tso.Name)
+			if gt != nil {
+				tname = shortTypeName(gt)
+			}
+			return Term{sx("=", sx(e.ss().DynTypeFn(a.Sort), a.S), e.ss().StrConst("type:"+tname)), SBool}, nil
 		}
 		if a.Sort.Kind != KSum {
 			return a, fmt.Errorf("type test on non-interface sort %s", a.Sort.Name)
@@ -850,6 +857,27 @@ func (e *SpecEnv) evalCall(x *SX) (Term, error) {
 			name = cls.Name
 		}
 		return Term{sx("errIs", a.S, e.ss().StrConst("errclass:"+name)), SBool}, nil
+	}
+	if x.Name == "sprintf" && len(x.Args) >= 2 && x.Args[0].Op == "str" {
+		var sorts []*Sort
+		var as []string
+		for _, a := range x.Args[1:] {
+			t, err := e.Eval(a)
+			if err != nil {
+				return t, err
+			}
+			sorts = append(sorts, t.Sort)
+			as = append(as, t.S)
+		}
+		return Term{sx(e.ss().SprintfFn(x.Args[0].Name, sorts), as...), SStr}, nil
+	}
+	if x.Name == "bigstr" && len(x.Args) == 1 {
+		// (*big.Int).String()
+		t, err := e.Eval(x.Args[0])
+		if err != nil {
+			return t, err
+		}
+		return Term{sx("ite", sx("=", t.S, "bnil"), e.ss().StrConst("<nil>"), sx("int2str", sx("bval", t.S))), SStr}, nil
 	}
 	if x.Name == "unchangedExcept" {
 		// unchangedExcept(new, old, Field1, Field2, ...): all other fields are equal
